@@ -62,6 +62,11 @@ func DefaultConfig(r *core.Rng) Config {
 		c.ABIHeavy = true
 		c.TailCall = r.Chance(3, 4)
 	}
+	if r.Chance(1, 40) {
+		// a large host module: host-function indexes beyond one byte (the engines encode them in exit codes / tables)
+		c.HostFuncs = 257 + r.Intn(64)
+		c.CallHeavy = true
+	}
 	return c
 }
 
